@@ -328,6 +328,23 @@ func Generate(prop, tier string, seed uint64) *Plan {
 			Op{K: "add", Slot: 0, S: r.Intn(cfg.NSeries), TB: "now", TO: int64(r.Range(30, 60))}, Op{K: "commit", Slot: 0}, Op{K: "compact"})
 		nops += len(p.Ops)
 	}
+	if prop == "C15" && r.Chance(0.3) || prop == "C03" && r.Chance(0.15) {
+		// samples of every kind exactly on a block boundary, two restarts (two more WAL segments), a jump that makes the
+		// head compactable and a compaction: the first truncation cuts at that boundary and checkpoints their segment
+		p.Ops = append(p.Ops, Op{K: "app", Slot: 0}, Op{K: "add", Slot: 0, S: 0, TB: "now", TO: 1})
+		for i := 0; i < cfg.NSeries; i++ {
+			p.Ops = append(p.Ops, Op{K: "add", Slot: 0, S: i, TB: "edge", VK: []int{1, 2, 0}[i%3], HM: r.Intn(histgen.NModes), HS: r.Uint64() >> 1})
+		}
+		// (a checkpoint needs four segments; the jump of one and a half block ranges makes exactly the range below the
+		// boundary compactable, so that the boundary is the truncation time and its samples stay in the head)
+		p.Ops = append(p.Ops, Op{K: "commit", Slot: 0}, Op{K: "restart"}, Op{K: "restart"}, Op{K: "restart"}, Op{K: "app", Slot: 0},
+			Op{K: "add", Slot: 0, S: r.Intn(cfg.NSeries), TB: "now", TO: 3 * cfg.R / (2 * cfg.Step)},
+			Op{K: "commit", Slot: 0}, Op{K: "compact"})
+		if r.Chance(0.5) {
+			p.Ops = append(p.Ops, Op{K: "restart"})
+		}
+		nops += len(p.Ops)
+	}
 	for len(p.Ops) < nops {
 		k := opNames[r.Pick(w.list())]
 		switch k {
@@ -404,6 +421,8 @@ func genKind(r *prng.R, prop string) int {
 	switch prop {
 	case "C11", "C12":
 		return []int{1, 1, 2, 2, 3, 0}[r.Intn(6)]
+	case "C15":
+		return []int{0, 0, 0, 1, 1, 2, 2, 3}[r.Intn(8)] // every record type a checkpoint filters by time
 	}
 	return []int{0, 0, 0, 0, 0, 1, 2, 3}[r.Intn(8)]
 }
@@ -431,6 +450,13 @@ func genAdd(r *prng.R, cfg Config, prop string, slot int) Op {
 		o.TB, o.TO = "slast", -int64(r.Range(1, 6))
 	default:
 		o.TB, o.TO = "hmax", int64(r.Range(0, 2))
+	}
+	if (prop == "C15" || prop == "C03") && r.Chance(0.2) {
+		// exactly on (or next to) the next block boundary: the time a head truncation and its WAL checkpoint cut at
+		o.TB, o.TO, o.TF = "edge", 0, []int64{0, 0, 0, 0, -1, 1}[r.Intn(6)]
+		if prop == "C15" {
+			o.VK = []int{0, 1, 1, 2, 2}[r.Intn(5)]
+		}
 	}
 	if r.Chance(0.1) {
 		o.Rej = true
